@@ -948,6 +948,28 @@ func genC05(t *rapid.T, spec *GenSpec) *Program {
 	p.Cfg.KeepFiles = false
 	g := &genState{spec: spec, model: NewNode(), deadKids: map[string]bool{}}
 	g.keys = genKeyPool(t, spec.Hostile, 8)
+	if chance(t, "longappend", 4) {
+		// many small append rounds: the footer grows beyond two pages, so a
+		// crash can leave it with a missing middle block
+		p.Cfg.Compaction = 0
+		p.Cfg.NoSync = false
+		p.Cfg.MaxPreMergerBatches = 1
+		rounds := rapid.IntRange(62, 75).Draw(t, "rounds")
+		for i := 0; i < rounds; i++ {
+			g.batchNo++
+			k := []byte("a")
+			if len(g.keys) > 0 {
+				k = g.keys[i%len(g.keys)]
+			}
+			b := &Batch{Ops: []KV{{Op: OpSet, K: k, V: []byte(fmt.Sprintf("v%d.", g.batchNo))}}}
+			g.model.Apply(b)
+			p.Ops = append(p.Ops, Op{Kind: "batch", B: b}, Op{Kind: "mstep"})
+		}
+		x := C05Extra{Masks: []uint64{5, 9, 0x55}}
+		bx, _ := json.Marshal(&x)
+		p.Extra = bx
+		return p
+	}
 	n := rapid.IntRange(1, 16).Draw(t, "nops")
 	for i := 0; i < n; i++ {
 		switch pick(t, "op", 55, 38, 7) {
